@@ -2,7 +2,15 @@
  * Client data is written/read with PLAIN accesses on both sides of each hand-off; the runtime (seqcc/rt/vf_hb.h)
  * computes happens-before only from the order each atomic operation requests and reports any plain access that is
  * not ordered after the previous conflicting one - on client data and on nsync's own non-atomic fields alike. */
+#include "nsync_cpp.h"
+#include "platform.h"
+#include "compiler.h"
+#include "cputype.h"
 #include "nsync.h"
+#include "dll.h"
+#include "sem.h"
+#include "wait_internal.h"
+#include "common.h"
 #include "vf_api.h"
 
 nsync_mu mu;
@@ -41,4 +49,20 @@ void setup_ctr (void) { ctr = nsync_counter_new (1); vf_assume (ctr != 0); }
 void t_ctr_dec (void) { v = 1; nsync_counter_add (ctr, -1); }
 void t_ctr_waiter (void) { if (nsync_counter_wait (ctr, nsync_time_no_deadline) == 0) { vf_assert (v == 1); } }
 void t_ctr_observer (void) { if (nsync_counter_value (ctr) == 0) { vf_assert (v == 1); } }
+/* a PASSIVE queued writer: a waiter record placed on mu's queue by the set-up code (standing for a thread asleep in
+   nsync_mu_lock), so that the first unlock goes through nsync_mu_unlock_slow_ while a second thread can barge in between the
+   CAS that drops the lock and the final release: the hand-off unlocker -> barging acquirer must still be a happens-before edge. */
+waiter PW;
+void setup_passive_writer (void) {
+	PW.tag = WAITER_TAG; PW.nw.tag = NSYNC_WAITER_TAG; PW.nw.sem = &PW.sem;
+	nsync_dll_init_ (&PW.nw.q, &PW.nw);
+	PW.nw.flags = NSYNC_WAITER_FLAG_MUCV;
+	nsync_dll_init_ (&PW.same_condition, &PW);
+	PW.flags = WAITER_RESERVED | WAITER_IN_USE;
+	PW.l_type = nsync_writer_type_;
+	*(uint32_t *) &PW.nw.waiting = 1;
+	nsync_mu_semaphore_init (&PW.sem);
+	mu.waiters = nsync_dll_make_last_in_list_ (mu.waiters, &PW.nw.q);
+	*(uint32_t *) &mu.word = MU_WAITING | MU_WRITER_WAITING;
+}
 void final_x (void) { int a = x; (void) a; }
